@@ -10,7 +10,7 @@ use serde_json::{json, Value};
 use crate::{engine::*, fsapply::*, fsgen::*, fsmodel::Model, fstypes::*, refpath::*};
 
 const MACROS: &[&str] = &[
-    "exists", "no_exists", "is_dir", "no_dir", "is_file", "no_file", "is_symlink", "no_symlink", "read_all", "readlink", "readlink_abs", "mkdir_p", "mkdir_m",
+    "exists", "no_exists", "is_dir", "no_dir", "is_file", "no_file", "is_symlink", "no_symlink", "read_all", "readlink", "readlink_abs", "mkdir_p", "mkdir_m", "mkdir_m_sticky",
     "mkfile", "write_all", "write_all_bytes", "copyfile", "symlink", "remove", "remove_all",
 ];
 
@@ -66,6 +66,9 @@ fn run_macro<V: VirtualFileSystem>(v: &V, mac: &str, a: &str, b: &str) {
         },
         "mkdir_m" => {
             assert_vfs_mkdir_m!(v, a, 0o40750);
+        },
+        "mkdir_m_sticky" => {
+            assert_vfs_mkdir_m!(v, a, 0o41750);
         },
         "mkfile" => {
             assert_vfs_mkfile!(v, a);
@@ -193,7 +196,7 @@ pub fn check_macro(case: &MacroCase) -> CaseResult {
         if !panicked {
             return Err(Failure::new(format!("passes-on-unresolvable-path|{}", cls), format!("{:?} did not panic for an empty path", case.mac)));
         }
-        if !msg.contains(&format!("assert_vfs_{}!", case.mac.trim_end_matches("_bytes"))) {
+        if !msg.contains(&format!("assert_vfs_{}!", case.mac.trim_end_matches("_bytes").trim_end_matches("_sticky"))) {
             return Err(Failure::new(format!("message-does-not-name-macro|{}", cls), format!("message {:?}", msg)));
         }
         return Ok(());
@@ -255,6 +258,7 @@ pub fn check_macro(case: &MacroCase) -> CaseResult {
         let holds: Option<bool> = match case.mac.as_str() {
             "mkdir_p" => Some(kpost == Some(Kind::Dir)),
             "mkdir_m" => Some(kpost == Some(Kind::Dir) && post.nodes.get(&a_abs).map(|n| n.mode() & 0o7777) == Some(0o750)),
+            "mkdir_m_sticky" => Some(kpost == Some(Kind::Dir) && post.nodes.get(&a_abs).map(|n| n.mode() & 0o7777) == Some(0o1750)),
             "mkfile" => Some(kpost == Some(Kind::File)),
             "write_all" => Some(kpost == Some(Kind::File) && file_text(&post, &a_abs).as_deref() == Some(b)),
             "write_all_bytes" => Some(matches!(post.nodes.get(&a_abs), Some(Node::File { data, .. }) if data == RAW)),
@@ -263,7 +267,11 @@ pub fn check_macro(case: &MacroCase) -> CaseResult {
             "symlink" => {
                 let want = if b.starts_with('/') { abs_plain("/", b).ok() } else { Some(ref_clean(&format!("{}/{}", parent(&a_abs), b))) };
                 match (ka, post.nodes.get(&a_abs), want) {
-                    (None, Some(Node::Link { target, .. }), Some(w)) if !b.is_empty() && !climbs_above_root(&parent(&a_abs), b) => Some(*target == w),
+                    (None, Some(Node::Link { target, rel, .. }), Some(w)) if !b.is_empty() && !climbs_above_root(&parent(&a_abs), b) => {
+                        // the stored relative form leads from the link's directory to the same place
+                        let rel_ok = rel.is_empty() || rel.starts_with('/') || climbs_above_root(&parent(&a_abs), rel) || ref_clean(&format!("{}/{}", parent(&a_abs), rel)) == w;
+                        Some(*target == w && rel_ok)
+                    },
                     (Some(Kind::Link), Some(n), _) => Some(pre.nodes.get(&a_abs) == Some(n) || case.stdfs),
                     _ => Some(kpost == Some(Kind::Link)),
                 }
@@ -276,6 +284,12 @@ pub fn check_macro(case: &MacroCase) -> CaseResult {
             },
             _ => None,
         };
+        // "performs the operation": on an unobstructed path (missing, parent is a real directory) creating
+        // macros have nothing to complain about
+        let unobstructed = ka.is_none() && a_abs != "/" && pre.kind(&parent(&a_abs)) == Some(Kind::Dir);
+        if unobstructed && panicked && matches!(case.mac.as_str(), "mkdir_p" | "mkdir_m" | "mkdir_m_sticky" | "mkfile" | "write_all" | "write_all_bytes") {
+            return Err(Failure::new(format!("fails-on-unobstructed-path|{}", cls), format!("{:?}({:?},{:?}) panicked ({}) although {:?} is missing and its parent is a directory", case.mac, a, b, msg, a_abs)));
+        }
         if let Some(h) = holds {
             if !panicked && !h {
                 return Err(Failure::new(format!("passes-but-postcondition-false|{}", cls), format!("{:?}({:?},{:?}) passed; afterwards {:?} is {}", case.mac, a, b, a_abs, kcls(kpost))));
@@ -287,7 +301,7 @@ pub fn check_macro(case: &MacroCase) -> CaseResult {
         }
     }
     if panicked {
-        let name_ok = msg.contains(&format!("assert_vfs_{}!", case.mac.trim_end_matches("_bytes")));
+        let name_ok = msg.contains(&format!("assert_vfs_{}!", case.mac.trim_end_matches("_bytes").trim_end_matches("_sticky")));
         if !name_ok {
             return Err(Failure::new(format!("message-does-not-name-macro|{}", cls), format!("message {:?}", msg)));
         }
@@ -345,7 +359,7 @@ fn setup_spec() -> impl Strategy<Value = OpSpec> {
 }
 
 pub fn run(c: &Ctx) {
-    c.set_rule("states: proptest-generated Memfs states over a 3-name namespace (dirs, files with small contents, links to dirs/files/links/missing targets) built from 2..10 creating calls; for EVERY state: every macro (11 checking, 8 acting; write_all also with a non-UTF-8 payload) x every path of the namespace that exists, a missing child, a missing-parent path and the empty string (pairs: copyfile/symlink with a second path; read_all/write_all with matching and different data; readlink/readlink_abs with the right text, a wrong one and a proper-suffix of the right one), each invocation on a freshly rebuilt state under catch_unwind; Memfs always, a seeded part on a tmpfs Stdfs sandbox materialised with std::fs. Oracle: checking macros panic <=> the reference predicate over the pre-state is false and leave the state alone; acting macros: never 'no panic and postcondition false', never 'panic although postcondition holds' (symlink: a new link points where vfs.symlink(link, target) points, also for targets relative to the link's directory; an existing link is untouched); every panic message names the macro and shows the resolved path. Non-trivial = invocation on an existing entry of another kind than the macro asks for, a link, or a near-miss second argument; distinct by (state, macro, arguments).");
+    c.set_rule("states: proptest-generated Memfs states over a 3-name namespace (dirs, files with small contents, links to dirs/files/links/missing targets) built from 2..10 creating calls; for EVERY state: every macro (11 checking, 8 acting; write_all also with a non-UTF-8 payload, mkdir_m also with a sticky-bit mode) x every path of the namespace that exists, a missing child, a missing-parent path and the empty string (pairs: copyfile/symlink with a second path; read_all/write_all with matching and different data; readlink/readlink_abs with the right text, a wrong one and a proper-suffix of the right one), each invocation on a freshly rebuilt state under catch_unwind; Memfs always, a seeded part on a tmpfs Stdfs sandbox materialised with std::fs. Oracle: checking macros panic <=> the reference predicate over the pre-state is false and leave the state alone; acting macros: never 'no panic and postcondition false', never 'panic although postcondition holds', never a panic of a creating macro on an unobstructed path (symlink: a new link points where vfs.symlink(link, target) points, also for targets relative to the link's directory; an existing link is untouched); every panic message names the macro and shows the resolved path. Non-trivial = invocation on an existing entry of another kind than the macro asks for, a link, or a near-miss second argument; distinct by (state, macro, arguments).");
     c.assume("no_dir!/no_file! on an existing entry of another kind: pass or panic both admitted (docs and code disagree); copyfile! into an existing directory: not asserted");
     let n = c.tier.pick(1500, 20000);
     let cfg = GenCfg { names: NAMES3, avoid_through_link: true, plain_spelling: true, wild: false, handles: false };
@@ -367,6 +381,13 @@ pub fn run(c: &Ctx) {
         paths.push("/zz/deep".into());
         if let Some(d) = tree.nodes.keys().find(|k| tree.kind(k) == Some(Kind::Dir) && k.as_str() != "/") {
             paths.push(format!("{}/new", d));
+        }
+        // a missing child of the deepest directory (links there have ancestors several levels up)
+        if let Some(d) = tree.nodes.keys().filter(|k| tree.kind(k) == Some(Kind::Dir)).max_by_key(|k| k.matches('/').count()) {
+            let p = format!("{}/new", d.trim_end_matches('/'));
+            if !paths.contains(&p) {
+                paths.push(p);
+            }
         }
         paths.push(String::new());
         let state_id = fp(&format!("{:?}", setup));
@@ -422,7 +443,7 @@ pub fn run(c: &Ctx) {
                         bs.push("/zz".into());
                         if *mac == "symlink" {
                             // relative targets: relative to the link's directory, not to the cwd
-                            bs.extend(["a".to_string(), "../b".to_string(), "./c/a".to_string()]);
+                            bs.extend(["a".to_string(), "../b".to_string(), "./c/a".to_string(), "/".to_string(), "../..".to_string()]);
                         }
                     },
                     _ => {},
